@@ -55,6 +55,9 @@ def run(ctx, res):
             raise AnalysisBroken("R(P) of the writer's wait lost fields %s" %
                                  sorted(map(LR.key_str, missing)))
         LR.rule_l_recheck(la, res, site)
+        LR.rule_l_recheck_nested(la, res, site)
+        # the predicate is what the whole loop nest around the wait evaluates
+        site = dict(site, reads=LR.full_reads(site))
         LR.rule_l_cv(la, res, site)
         cv = site["cv"]
         for name in ("channel_read_unmap", "channel_accept_writes"):
@@ -65,7 +68,7 @@ def run(ctx, res):
     # a reader operation that moves a hold without mapping must announce it itself
     for site in sites:
         if site["loop"]:
-            nh = LR.rule_hold_notify(la, res, prog.func("channel_read_map"), site["cv"], site["reads"])
+            nh = LR.rule_hold_notify(la, res, prog.func("channel_read_map"), site["cv"], LR.full_reads(site))
             if nh == 0:
                 raise AnalysisBroken("channel_read_map no longer moves a hold cursor (lap advance)")
     # "readers that keep reading reach the drained state": a read that reports 'empty' while committed
